@@ -572,6 +572,29 @@ func runR06_4(c *Ctx, r *R) {
 	}
 	check("channel.receive", "closed-channel", closedLoad)
 	check("channelState.receiveClose", "closed-channel", closedLoad)
+	// the per-channel handlers of data, window and close frames: whatever happens to the channel's own queue or
+	// window (queue closed by a concurrent Free between the closed test and the write) stays inside the channel -
+	// any non-OK status returned here ends the receive loop and with it every channel of the connection
+	for _, h := range []string{"channelState.receiveData", "channelState.receiveWindow", "channelState.receiveClose"} {
+		f := r.Need("mpx", h)
+		if f == nil {
+			continue
+		}
+		key := fnKey(f) + "/always-OK"
+		bad := ""
+		var pos token.Pos
+		for _, ret := range returnsOf(f) {
+			if cl := sa.classOf(ret.Results[len(ret.Results)-1], ret.Block(), false, 0); cl != SOK {
+				bad = fmt.Sprintf("the return at %s yields a status that %s", c.pos(ret.Pos()), map[SClass]string{SNonOK: "is not OK", SUnknown: "may be not OK", SBottom: "is undefined"}[cl])
+				pos = ret.Pos()
+			}
+		}
+		if bad == "" {
+			r.OK(key, f.Pos(), "every return is status.OK: a failing write into the channel's own queue is not a connection failure")
+		} else {
+			r.Bad(key, pos, "%s: a frame racing with the end of its channel (queue already closed) makes the receive loop exit and closes the whole connection instead of being dropped", bad)
+		}
+	}
 }
 
 // allow-list of explicit panics in package mpx: function -> reason
